@@ -92,6 +92,9 @@ func init() {
 				return TupleV{}
 			}
 			r, m := in.sol.CheckModel(in.inputTerms(), in.ctx.Not(cnd))
+			if r == smt.Unknown {
+				r, m = in.portfolio(in.ctx.Not(cnd))
+			}
 			switch r {
 			case smt.Unsat:
 				in.res.Discharged++
@@ -152,3 +155,25 @@ func init() {
 }
 
 func fmtSite(s string) string { return fmt.Sprintf("%s", s) }
+
+// portfolio re-decides a query the primary solver gave up on: the whole path
+// condition plus extra is handed to fresh z3 5.1.0 and cvc5 processes with a
+// longer limit. Any definite answer is accepted.
+func (in *Interp) portfolio(extra *smt.Term) (smt.Result, map[string]uint64) {
+	for _, kind := range []string{"z3-new", "cvc5", "z3"} {
+		s, err := smt.NewSolver(kind, in.ctx, 6*in.eng.TimeoutMs)
+		if err != nil {
+			continue
+		}
+		for _, c := range in.pc {
+			s.Assert(c)
+		}
+		r, m := s.CheckModel(in.inputTerms(), extra)
+		s.Close()
+		in.res.PortfolioQueries++
+		if r != smt.Unknown {
+			return r, m
+		}
+	}
+	return smt.Unknown, nil
+}
